@@ -50,6 +50,16 @@ PROPS = {
         "assumptions": ["public keys are well-formed (wf_pk: modulus > 1, all bases units mod N, at least one base R_0)"],
         "partial": [],
     },
+    "C12": {
+        "suite": "C12", "ref_sample": 2, "trusted": CORE_TRUSTED,
+        "assumptions": ["a verified range proof establishes the sum-of-squares relation by the two-transcript extractor + CL03 (cited); the theorems take the relation as hypothesis"],
+        "partial": ["extraction of the integer relation from an accepted proof is the Sigma-protocol/strong-RSA argument of the package comment (not mechanised)"],
+    },
+    "C13": {
+        "suite": "C13", "ref_sample": 2, "trusted": CORE_TRUSTED + ["SumFourSquares output enters the model as an observed value (checked to square-sum to the input)"],
+        "assumptions": [],
+        "partial": ["existence of a three-square decomposition for every value 2 mod 4 (Legendre) is checked by computation for the table limit, not proved in general"],
+    },
     "C15": {
         "suite": "C15",
         "mismatch_is_violation": True,   # the Coq definition is the property's reference
